@@ -476,6 +476,18 @@ func init() {
 	}
 	r["Yield"] = func(fr *frame, args []value) value { SC.yield(); return nil }
 	r["WaitIdle"] = func(fr *frame, args []value) value { SC.waitIdle(false); return nil }
+	r["RunReadyFIFO"] = func(fr *frame, args []value) value {
+		for {
+			en := SC.enabled(false)
+			if len(en) == 0 {
+				return nil
+			}
+			cur := SC.cur
+			cur.state = stWaitIdle
+			SC.switchTo(en[0])
+			cur.state = stReady
+		}
+	}
 	r["FireTimers"] = func(fr *frame, args []value) value { SC.waitIdle(true); return nil }
 	r["PreemptOn"] = func(fr *frame, args []value) value { SC.preemptOn = true; return nil }
 	r["PreemptOff"] = func(fr *frame, args []value) value { SC.preemptOn = false; return nil }
